@@ -500,6 +500,52 @@ def freshness_native(chk):
         bad.append('with_reduced_powder_data / save modified the data')
     rp = real_module('peaks')
     record('io entry points leave their arguments unchanged (deep snapshots)', not bad, str(bad))
+    # repeated identical requests give identical answers (no state carried from one call to the next): quadratures, transmission map,
+    # disk-chopper openings, peak models -- a cached intermediate that is then modified in place shows up here
+    bad = []
+    cyl_mod = real_module('absorption.cylinder')
+    ab = real_module('absorption')
+    mk_cyl = lambda: cyl_mod.Cylinder(symmetry_line=sc.vector([0.0, 0.6, 0.8]), center_of_base=sc.vector([0.0, 0.0, 0.0], unit='mm'),
+                                      radius=sc.scalar(2.0, unit='mm'), height=sc.scalar(7.0, unit='mm'))
+    for kind in ('cheap', 'medium', 'expensive'):
+        res = [mk_cyl().quadrature(kind) for _ in range(3)] + [mk_cyl().quadrature(kind)]
+        for k, (p_, w_) in enumerate(res[1:], 1):
+            if not (sc.identical(p_, res[0][0]) and sc.identical(w_, res[0][1])):
+                bad.append(f'Cylinder.quadrature({kind!r}): call {k + 1} differs from the first call')
+                break
+    try:
+        from scippneutron.atoms import ScatteringParams   # noqa: F401  (import check only)
+        at = real_module('atoms')
+        mat = real_module('absorption.material').Material(scattering_params=at.ScatteringParams.for_isotope('V'),
+                                                          effective_sample_number_density=sc.scalar(0.07, unit='1/angstrom**3'))
+        det = sc.vectors(dims=['detector'], values=[[0.0, 0.0, 100.0], [30.0, 0.0, 90.0]], unit='mm')
+        lam = sc.linspace('wavelength', 1.0, 4.0, 3, unit='angstrom')
+        tm = [ab.compute_transmission_map(mk_cyl(), mat, beam_direction=sc.vector([0.0, 0.0, 1.0]), wavelength=lam, detector_position=det, quadrature_kind='medium')
+              for _ in range(3)]
+        if not all(sc.identical(t, tm[0]) for t in tm[1:]):
+            bad.append('compute_transmission_map: repeated identical requests differ')
+    except Exception as e:  # noqa: BLE001
+        bad.append(f'compute_transmission_map raised {type(e).__name__}: {e}')
+    dcm = real_module('chopper.disk_chopper')
+    mk_ch = lambda: dcm.DiskChopper(axle_position=sc.vector([0, 0, 10.0], unit='m'), frequency=sc.scalar(28.0, unit='Hz'), beam_position=sc.scalar(10.0, unit='deg'),
+                                    phase=sc.scalar(25.0, unit='deg'), slit_begin=sc.array(dims=['slit'], values=[0.0, 90.0], unit='deg'),
+                                    slit_end=sc.array(dims=['slit'], values=[30.0, 120.0], unit='deg'))
+    ch = mk_ch()
+    opens = [ch.time_offset_open(pulse_frequency=sc.scalar(14.0, unit='Hz')) for _ in range(3)] + [mk_ch().time_offset_open(pulse_frequency=sc.scalar(14.0, unit='Hz'))]
+    if not all(sc.identical(o, opens[0]) for o in opens[1:]):
+        bad.append('DiskChopper.time_offset_open: repeated identical requests differ')
+    pm = real_module('peaks.model')
+    xs = sc.linspace('x', -3.0, 3.0, 7, unit='angstrom')
+    pars = lambda: dict(amplitude=sc.scalar(2.0, unit='counts'), loc=sc.scalar(0.2, unit='angstrom'), scale=sc.scalar(0.7, unit='angstrom'))
+    for cls in (pm.GaussianModel, pm.LorentzianModel, pm.PseudoVoigtModel):
+        model = cls()
+        kw = pars()
+        if cls is pm.PseudoVoigtModel:
+            kw['fraction'] = sc.scalar(0.3)
+        ys = [model(xs, **kw) for _ in range(3)]          # the SAME parameter objects every time
+        if not all(sc.identical(y, ys[0]) for y in ys[1:]):
+            bad.append(f'{cls.__name__}: repeated evaluation with the same parameter objects differs')
+    record('repeated identical requests give identical answers (quadratures, transmission map, chopper openings, peak models)', not bad, str(bad))
     chk.extra['native_freshness_checks'] = n
 
 
